@@ -53,8 +53,8 @@ def run_sched_case(rng, res, idx, maxlen):
 
     subset = [p for b, p in enumerate(PARAMS) if (idx >> b) & 1]
     init = dict(factor_update_steps=rng.choice([1, 2, 3, 10, 100, 200]), inv_update_steps=rng.choice([1, 2, 4, 10, 100, 1000]),
-                damping=rng.choice([0.001, 0.003, 0.1]), factor_decay=rng.choice([0.95, 0.5, 1.0]),
-                kl_clip=rng.choice([0.001, 1.0]), lr=rng.choice([0.1, 0.0, 1e-3]))
+                damping=rng.choice([0.001, 0.003, 0.1, 1]), factor_decay=rng.choice([0.95, 0.5, 1.0, 1]),
+                kl_clip=rng.choice([0.001, 1.0, 1, 2]), lr=rng.choice([0.1, 0.0, 1e-3, 1, 2]))   # (Python ints are valid floats: lr=1)
     use_real = rng.random() < 0.5
     import warnings
     with warnings.catch_warnings():
